@@ -145,7 +145,8 @@ type Config struct {
 	BaseMs             int      `json:"base_ms"`                  // election timeout on view 0 for the real timer
 	FailCommitAt       []uint64 `json:"fail_commit_at,omitempty"` // heights whose commit callback returns an error
 	CommitteeFailFirst int      `json:"committee_fail_first,omitempty"`
-	AbsentAt           uint64   `json:"absent_at,omitempty"` // the node is not in the committee of this height (it moves on by sync only)
+	AbsentAt           uint64   `json:"absent_at,omitempty"`          // the node is not in the committee of this height (it moves on by sync only)
+	CommitHonoursCtx   bool     `json:"commit_honours_ctx,omitempty"` // the consumer's commit callback returns ctx.Err() when its context was cancelled while it ran
 }
 
 type Event struct {
@@ -323,14 +324,22 @@ func New(cfg Config) *H {
 		b := fakes.AsBlock(block)
 		hh := uint64(block.Height())
 		h.Gates.enter("commit", ctx, hh, 0, true)
+		failed := fail[hh]
+		var cerr error
+		if cfg.CommitHonoursCtx && ctx.Err() != nil { // a consumer that honours its context gives up and says so
+			failed, cerr = true, ctx.Err()
+		}
 		h.mu.Lock()
 		h.Commits = append(h.Commits, sim.Commit{H: hh, Block: b, Proof: append([]byte{}, proof...)})
-		if !fail[hh] {
+		if !failed {
 			h.ProofOf[hh+1] = append([]byte{}, proof...)
 		}
 		h.mu.Unlock()
-		h.ev(Event{Kind: "commit", H: hh, Info: b.ID, B: fail[hh]})
-		if fail[hh] {
+		h.ev(Event{Kind: "commit", H: hh, Info: b.ID, B: failed})
+		if cerr != nil {
+			return cerr
+		}
+		if failed {
 			return fmt.Errorf("consumer failed to persist block %d", hh)
 		}
 		return nil
